@@ -19,7 +19,10 @@ def sh(cmd, **kw):
 
 
 def main():
-    specs = json.load(open(os.path.join(V, 'selftest', 'mutants.json')))
+    import glob
+    specs = []
+    for fp in sorted(glob.glob(os.path.join(V, 'selftest', 'mutants*.json'))):
+        specs += json.load(open(fp))
     sel = sys.argv[1:]
     st = sh('git -C %s status --porcelain' % REPO).stdout.strip()
     if st:
